@@ -344,6 +344,19 @@ def gen_population(rng, max_rows=4, phrase_mode='mixed', inferred_p=0.15, max_st
     for c in classes:
         for _ in range(rng.randint(0, max_rows)):
             rows.append(gen_row(rng, c['kind'], c['attrs']))
+    # SHORT positional rows: the trailing attributes left out are referential ones, which stay unset (an unset key
+    # refers to nothing, whatever the default of its type is)
+    for r in rows:
+        if r['names'] is None and rng.random() < 0.3:
+            c = [c for c in classes if c['kind'] == r['kind']][0]
+            refs = set(k for a in assocs if a['sk'] == c['kind'] for k in a['skeys'])
+            run = 0
+            while run < len(c['attrs']) and c['attrs'][len(c['attrs']) - 1 - run][0] in refs:
+                run += 1
+            if run and len(r['vals']) == len(c['attrs']):
+                cut = rng.randint(1, run)
+                r['vals'] = r['vals'][:-cut]
+                r['lex'] = r['lex'][:-cut]
     if rng.random() < inferred_p:
         kind = rng.choice([k for k in ['KX', 'KY']])
         rows += gen_inferred_rows(rng, kind, rng.randint(1, 3))
